@@ -158,6 +158,11 @@ func ardop.(*TNC).Listen$1() ()
   at send#0 requires close-is-reported: $1 != nil
   at send#1 requires tnc-closed-is-reported: !ok && $1 == ErrTNCClosed
   at send#2 requires inbound-only-after-a-target-report: len(targetcall) > 0 && $0 == incoming
+  # the remembered target is set by a TARGET report only and forgotten exactly when the attempt ends
+  # (CANCELPENDING, DISCONNECTED) or after the hand-over
+  at assign:targetcall#0 requires forgotten-when-the-attempt-ends: (msg.cmd == cmdCancelPending || msg.cmd == cmdDisconnected) && len($0) == 0
+  at assign:targetcall#1 requires set-by-a-target-report: msg.cmd == cmdTarget
+  at assign:targetcall#2 requires forgotten-after-the-hand-over: msg.cmd == cmdConnected && len($0) == 0
 
 # the listener's exit: the connection queue is closed first, then the error queue, and the TNC is
 # free for a new listener
@@ -195,6 +200,7 @@ ghost var gIsARQ bool
 ghost var gConnAtFrame bool
 ghost var gHandedAt int
 ghost var gPttVal bool
+ghost var gLastWasConnected bool
 ghost var gNewState int
 
 func ardop.(*TNC).runControlLoop$1() ()
@@ -220,6 +226,11 @@ func ardop.(*TNC).runControlLoop$1() ()
   call ardop.(*tncConn).updateBuffer requires buffer-report: msg.cmd == cmdBuffer
   at mapupdate requires heard-only-from-a-well-formed-id-frame: err == nil
   call ardop.(*broadcaster).Send requires every-command-is-broadcast: same($1.cmd, msg.cmd)
+  # a data frame that follows a CONNECTED report directly must not be discarded: the link has to
+  # be marked connected before the next frame is taken.  (KNOWN FINDING: it is not - the listener
+  # and the dialler set tnc.connected from their own goroutines after they got the broadcast.)
+  call ardop.(*broadcaster).Send set gLastWasConnected := $1.cmd == cmdConnected
+  loop 0 invariant connected-before-the-next-frame: gLastWasConnected ==> tnc.connected
 
 func ardop.(*tncConn).Write(conn, p) (n, err)
   props C14
